@@ -135,7 +135,7 @@ def h_csv(axes_per_metric, variants, small=False, with_missing_time=True):
 def h_text_variants():
     """Both text-like writers x conditional / threshold / data axes x bin types x with and without -r,
     for a few representative metrics (the full cross product is the thorough tier's)."""
-    metrics = ["mae", "obs", "corr", "ets"]
+    metrics = ["mae", "obs", "corr", "ets", "obs -agg max", "fcst -agg range"]
     axes = ["obs", "fcst", "threshold", "leadtime"]
     bins = [[], ["-b", "within"], ["-b", "below="], ["-b", "=within="]]
     rs = [[], ["-r", "1,3"], ["-r", "0,1,2,3"]]
@@ -154,7 +154,7 @@ def h_text_variants():
         files = {"A.txt": ins[0], "B.txt": ins[1]}
         old = inp.get_input
         inp.get_input = lambda f: files[f]
-        argv = ["verif", "A.txt", "B.txt", "-m", name, "-x", axis, "-type", fmt] + b + r
+        argv = ["verif", "A.txt", "B.txt", "-m"] + name.split() + ["-x", axis, "-type", fmt] + b + r
         code, crash = None, None
         try:
             try:
